@@ -1,0 +1,62 @@
+//go:build verif
+
+package freelist
+
+import (
+	"sort"
+
+	"go.etcd.io/bbolt/internal/common"
+)
+
+// VerifPending is one pending page: freed by a transaction, not yet reusable.
+type VerifPending struct {
+	ID      common.Pgid
+	AllocTx common.Txid // transaction that allocated the page, 0 if unknown
+}
+
+// VerifState is a read-only copy of an allocator's complete state. It exists
+// only with the `verif` build tag, for external runtime monitors.
+type VerifState struct {
+	Free    []common.Pgid                  // sorted
+	Pending map[common.Txid][]VerifPending // by freeing transaction
+	Readers []common.Txid                  // registered read-only transactions, sorted
+	Allocs  map[common.Pgid]common.Txid    // first page id of an allocation -> allocating tx
+	Cache   []common.Pgid                  // membership cache (what Freed reports), sorted
+}
+
+// VerifExport copies the state of f.
+func VerifExport(f Interface) VerifState {
+	st := VerifState{
+		Pending: map[common.Txid][]VerifPending{},
+		Allocs:  map[common.Pgid]common.Txid{},
+	}
+	st.Free = append(st.Free, f.freePageIds()...)
+	sort.Sort(common.Pgids(st.Free))
+	for txid, txp := range f.pendingPageIds() {
+		var l []VerifPending
+		for i, id := range txp.ids {
+			l = append(l, VerifPending{ID: id, AllocTx: txp.alloctx[i]})
+		}
+		sort.Slice(l, func(i, j int) bool { return l[i].ID < l[j].ID })
+		st.Pending[txid] = l
+	}
+	var sh *shared
+	switch t := f.(type) {
+	case *array:
+		sh = t.shared
+	case *hashMap:
+		sh = t.shared
+	}
+	if sh != nil {
+		st.Readers = append(st.Readers, sh.readonlyTXIDs...)
+		sort.Slice(st.Readers, func(i, j int) bool { return st.Readers[i] < st.Readers[j] })
+		for k, v := range sh.allocs {
+			st.Allocs[k] = v
+		}
+		for k := range sh.cache {
+			st.Cache = append(st.Cache, k)
+		}
+		sort.Sort(common.Pgids(st.Cache))
+	}
+	return st
+}
